@@ -315,4 +315,52 @@ theorem filterAllow_spec (fields : List K) (doc : List (Fld K V)) (htags : (doc.
     have := hy'.2
     simp [hk] at this
 
+/-! ## the pipe header (`parser/seqql_pipes.go: parsePipeFields`, `parseFieldList`) on lexer tokens -/
+
+/-- a lexer token: its text and whether it was quoted -/
+structure Tok where
+  text : List Char
+  quoted : Bool
+deriving DecidableEq, Repr
+
+def asciiLower (s : List Char) : List Char := s.map fun c => if 'A' ≤ c ∧ c ≤ 'Z' then Char.ofNat (c.toNat + 32) else c
+
+/-- `lexer.IsKeyword`: never a quoted token, otherwise case-insensitive (`strings.EqualFold`; ASCII keywords) -/
+def isKeyword (t : Tok) (kw : List Char) : Bool := !t.quoted && asciiLower t.text == kw
+
+/-- `parseFieldList`: names until the next `|` or the end, an optional comma after each name, no trailing comma,
+not empty.  `afterName` = the previous token was a name, `tr` = a comma was just consumed, `acc` = names (reversed). -/
+def fieldListGo : List Tok → Bool → Bool → List (List Char) → Option (List (List Char) × List Tok)
+  | [], _, tr, acc => if tr ∨ acc.isEmpty then none else some (acc.reverse, [])
+  | t :: rest, afterName, tr, acc =>
+    if isKeyword t ['|'] then (if tr ∨ acc.isEmpty then none else some (acc.reverse, t :: rest))
+    else if isKeyword t [','] then (if afterName then fieldListGo rest false true acc else none)
+    else fieldListGo rest true false (t.text :: acc)
+
+/-- `parsePipeFields` on the tokens after a `|`: `(except, names, remaining tokens)`; `none` = parse error -/
+def parsePipeFields (ts : List Tok) : Option (Bool × List (List Char) × List Tok) :=
+  match ts with
+  | [] => none
+  | f :: rest =>
+    if isKeyword f "fields".toList then
+      match rest with
+      | e :: rest' =>
+        if isKeyword e "except".toList then (fieldListGo rest' false false []).map fun r => (true, r.1, r.2)
+        else (fieldListGo rest false false []).map fun r => (false, r.1, r.2)
+      | [] => none
+    else none
+
+theorem isKeyword_case (t t' : Tok) (kw : List Char) (hq : t.quoted = t'.quoted)
+    (hl : asciiLower t.text = asciiLower t'.text) : isKeyword t kw = isKeyword t' kw := by
+  unfold isKeyword; rw [hq, hl]
+
+/-- the parse depends on the two keyword tokens only through their quoting and their lower-cased text -/
+theorem parsePipeFields_case (f f' e e' : Tok) (rest : List Tok)
+    (hf : f.quoted = f'.quoted ∧ asciiLower f.text = asciiLower f'.text) (hfk : isKeyword f "fields".toList = true)
+    (he : e.quoted = e'.quoted ∧ asciiLower e.text = asciiLower e'.text) (hek : isKeyword e "except".toList = true) :
+    parsePipeFields (f :: e :: rest) = parsePipeFields (f' :: e' :: rest) := by
+  have hfk' : isKeyword f' "fields".toList = true := by rw [← isKeyword_case f f' _ hf.1 hf.2]; exact hfk
+  have hek' : isKeyword e' "except".toList = true := by rw [← isKeyword_case e e' _ he.1 he.2]; exact hek
+  simp only [parsePipeFields, hfk, hek, hfk', hek', if_true]
+
 end SV.Fields
